@@ -32,6 +32,16 @@ chk("C24", "MIR dominance: effect-table calls dominated by enforce_sandbox false
     "Trusted: rustc's MIR and callee resolution; the effect table (std::fs/process/net/stdin/Path probes); dependency internals are not walked. One accepted probe (source_file canonicalize) is allow-listed with its reason; one known finding (check_snippet import reads).",
     "DESIGN.md section 4 C24")
 
+chk("C25", "MIR CFG: limit comparisons edge-dominate the step (edge-removal reachability), tick increment dominance, frame-push placement, config store dominance, blocking-call guards; thorough: loop and recursion inventory",
+    "Structural necessary conditions of the step budget proved for every path through the interpreter loop: no step without both limit checks, no frame push without a checked step, limits configured before evaluation, blocking calls guarded. Decides those clauses for all programs; does not bound the time of one native step.",
+    "Trusted: rustc MIR; the blocking-API table. Deep value nesting inside one step is reported by the thorough tier as a known finding.",
+    "DESIGN.md section 4 C25")
+
+chk("C08", "MIR CFG must-pass-through: every non-step exit of the interpreter loop restores the popped expression; no-effect-before-check; flag consumed once",
+    "For every path of eval::eval from the pop of (state, expr) to a return that skips the step, restore_stack_frame(pair, []) is on the path, nothing but the tick counter is written before the checks, and the interrupt flag is cleared only on the Interrupted edge; so the machine state at an interrupt equals the state before the step, for every step of every program.",
+    "Trusted: rustc MIR. Decides the state-restoration clause; equality of printed output additionally assumes steps are deterministic.",
+    "DESIGN.md section 4 C08")
+
 ENGINES = [
  {"name": "gfacts", "path": "tools/gfacts", "kind_free_text": "rustc_private driver (nightly) dumping the type-checked MIR (CFG, resolved callees, asserts, places with field names) of every function of the garden crate as JSON; run as RUSTC_WORKSPACE_WRAPPER under cargo +nightly check on /repo's current tree"},
  {"name": "gshape", "path": "tools/gshape", "kind_free_text": "syn-2 syntax tree dumper (match arms, patterns, literals, struct initialisers) for table/shape rules"},
